@@ -21,13 +21,17 @@ for p in "$@"; do
   rc=$(echo "$full" | grep -c "^VIOLATION")
   r=$(echo "$full" | grep -E "^(VIOLATION|UNDECIDED|CHECKER|C[0-9]+ tier|  failed obligation|  bounded)" | head -12)
   echo "== $p: violations=$rc"; echo "$r" | cut -c1-220
-  results="$results $p:$rc"
+  nfail=$(echo "$full" | grep -E "^C[0-9]+ tier" | sed -E 's/.* ([0-9]+) failing.*/\1/')
+  nund=$(echo "$full" | grep -E "^C[0-9]+ tier" | sed -E 's/.* ([0-9]+) undecided.*/\1/')
+  nsi=$(echo "$full" | grep -E "bounded stand-in" | sed -E 's/.*\(([0-9]+) unexplained\).*/\1/')
+  results="$results $p:$rc:${nfail:-0}:${nund:-0}:${nsi:-0}"
 done
 rm -rf "$sc"
 python3 - "$meta" "$name" "$clean_rc" "$mut_rc" "$tests" "$results" "$ROOT" <<'PY'
 import json, sys
 meta=json.load(open(sys.argv[1])); name=sys.argv[2]
 meta.update(confirmed=dict(demo_rc_clean=int(sys.argv[3]), demo_rc_with_change=int(sys.argv[4]), test_suite=sys.argv[5], how="demo and test suite in a scratch git worktree of /repo HEAD under /tmp; checks run against a scratch copy of /repo/tinyflux with the patch (PYVC_REPO); both removed afterwards (tools/try_seed.sh)"),
-            checks={kv.split(':')[0]: ('VIOLATION reported' if int(kv.split(':')[1]) else 'not reported') for kv in sys.argv[6].split()})
+            checks={kv.split(':')[0]: ('VIOLATION reported' if int(kv.split(':')[1]) else 'not reported') for kv in sys.argv[6].split()},
+            checks_detail={kv.split(':')[0]: dict(violation_lines=int(kv.split(':')[1]), failing_proof_obligations=int(kv.split(':')[2] or 0), undecided=int(kv.split(':')[3] or 0), standin_failures=int(kv.split(':')[4] or 0)) for kv in sys.argv[6].split()})
 json.dump(meta, open('%s/seeded/%s/meta.json'%(sys.argv[7],name),'w'), indent=1)
 PY
